@@ -345,7 +345,10 @@ Proof. apply omap_app. Qed.
 Lemma ops_of_incrs l : ops_of (map (λ cd : list Z * Z, RtIncr cd.1 cd.2) l) = [].
 Proof. by induction l. Qed.
 Lemma ops_of_ops os : ops_of (map RtOp os) = os.
-Proof. induction os as [|o os IH]; [done|]. cbn. by rewrite IH. Qed.
+Proof.
+  induction os as [|o os IH]; [done|]. rewrite map_cons.
+  change (ops_of (RtOp o :: map RtOp os)) with (o :: ops_of (map RtOp os)). by rewrite IH.
+Qed.
 
 Lemma rremaining_insert (ts : list rthread) i t t' pre : ts !! i = Some t →
   ops_of (todo t) = pre ++ ops_of (todo t') → rremaining ts ≡ₚ pre ++ rremaining (<[i := t']> ts).
@@ -415,8 +418,9 @@ Proof.
 Qed.
 Lemma rremaining_rop_threads oss : rremaining (map rop_thread oss) = concat oss.
 Proof.
-  induction oss as [|os oss IH]; [done|]. unfold rremaining. cbn [map flat_map concat todo rop_thread].
-  rewrite ops_of_ops. f_equal. exact IH.
+  induction oss as [|os oss IH]; [done|]. rewrite map_cons. unfold rremaining. cbn [flat_map concat].
+  fold (rremaining (map rop_thread oss)). rewrite IH. unfold rop_thread at 1. cbn [todo].
+  by rewrite ops_of_ops.
 Qed.
 Lemma rremaining_finished (ts : list rthread) : (∀ t, t ∈ ts → todo t = []) → rremaining ts = [].
 Proof.
@@ -471,4 +475,84 @@ Proof.
   destruct (red_prom_ext _ _ Hhs Hcs) as [Hp Hr]. split.
   - intros k. unfold r_hash. by rewrite Hhs.
   - rewrite Hp, Hr. by apply redis_totals_exact.
+Qed.
+
+(* ---- the machine runs: two threads announcing into the same swarm, one of them
+   the same peer twice; a complete schedule that interleaves the counter
+   round-trips with the other thread's membership round-trips *)
+Definition conc_ex_ih : list Z := repeat 7 20.
+Definition conc_ex_pk : list Z := [1; 2; 3].
+Definition conc_ex_pk2 : list Z := [4; 5; 6].
+Definition conc_ex_oss : list (list rop) :=
+  [ [RPutSeeder conc_ex_ih false conc_ex_pk 100; RDelSeeder conc_ex_ih false conc_ex_pk2];
+    [RPutLeecher conc_ex_ih false conc_ex_pk2 101; RGraduate conc_ex_ih false conc_ex_pk2 102] ].
+Definition conc_ex_sched : list nat := [0; 1; 1; 0; 7; 1; 0; 1; 0; 1; 0; 1]%nat.
+
+Example redis_quiescent_example :
+  let m0 := (rshared_of redis_init, map rop_thread conc_ex_oss) in
+  let final := rrun conc_ex_sched m0 in
+  finishedb final = true ∧
+  rstarted conc_ex_sched m0 =
+    [RPutSeeder conc_ex_ih false conc_ex_pk 100; RPutLeecher conc_ex_ih false conc_ex_pk2 101;
+     RGraduate conc_ex_ih false conc_ex_pk2 102; RDelSeeder conc_ex_ih false conc_ex_pk2] ∧
+  map_to_list (r_hash (k_swarm false true conc_ex_ih) (rst final.1)) = [(conc_ex_pk, 100)] ∧
+  r_hash (k_swarm false false conc_ex_ih) (rst final.1) = ∅ ∧
+  red_prom (rst final.1) = (1, 1, 0) ∧
+  map (λ t, outs (loc t)) final.2 = [[[1; 1]; [1]]; [[1; 1]; [1; 1; 0]]].
+Proof. by vm_compute. Qed.
+
+(* ---- F10: the expiry pass deletes a peer that re-announced between the pass's
+   HGETALL and its (unconditional) HDEL.  The start state is reached by a
+   sequential history; the put carries a clock > T; both sequential orderings
+   of (pass, put) keep the peer; the interleaving below loses it. *)
+Theorem redis_gc_removes_fresh_refuted :
+  ∃ (h0 : list sop) (ih : list Z) (v6 : bool) (pk : list Z) (T t : Z) (sched : list nat),
+    Forall sop_wf h0 ∧ ih_wf ih ∧ T < t ∧
+    let st0 := run_redis h0 in
+    let final := rrun sched (rshared_of st0, [rgc_thread T; rop_thread [RPutSeeder ih v6 pk t]]) in
+    (∃ t0, r_hash (k_swarm v6 true ih) st0 !! pk = Some t0 ∧ t0 ≤ T) ∧       (* stale before *)
+    finishedb final = true ∧
+    r_hash (k_swarm v6 true ih) (rst final.1) !! pk = None ∧                 (* lost *)
+    r_hash (k_swarm v6 true ih) (red_gc T (red_put_seeder ih v6 pk t st0)) !! pk = Some t ∧
+    r_hash (k_swarm v6 true ih) (red_put_seeder ih v6 pk t (red_gc T st0)) !! pk = Some t.
+Proof.
+  exists [SClock 10; SPutSeeder conc_ex_ih false conc_ex_pk], conc_ex_ih, false, conc_ex_pk, 50, 100.
+  exists [0; 0; 1; 0; 0; 0; 0; 0; 0]%nat.
+  split; [repeat apply Forall_cons_2; try apply Forall_nil_2; by repeat split|].
+  split; [by repeat split|]. split; [lia|].
+  cbv zeta. split; [exists 10; by vm_compute|]. by vm_compute.
+Qed.
+
+(* the round-trips of that schedule, by thread *)
+Example redis_gc_removes_fresh_trace :
+  let st0 := run_redis [SClock 10; SPutSeeder conc_ex_ih false conc_ex_pk] in
+  let k := k_swarm false true conc_ex_ih in
+  map (λ e : nat * rrt * rshared, e.1)
+      (rtrace [0; 0; 1; 0; 0; 0; 0; 0; 0]%nat
+              (rshared_of st0, [rgc_thread 50; rop_thread [RPutSeeder conc_ex_ih false conc_ex_pk 100]])) =
+  [ (0, RtHkeys 50 false); (0, RtHgetall 50 false k);
+    (1, RtOp (RPutSeeder conc_ex_ih false conc_ex_pk 100));
+    (0, RtGcHdel false k conc_ex_pk true); (0, RtIncr (k_scount false) (-1));
+    (0, RtWatch k); (0, RtHlen false k); (0, RtExec false k); (0, RtHkeys 50 true) ]%nat.
+Proof. by vm_compute. Qed.
+
+(* ---- F11: two expiry passes (two tracker instances sharing the Redis server)
+   over one stale seeder.  Both WATCH the swarm key after it was emptied, both
+   see HLEN = 0, both EXECs commit (the watched key does not change any more),
+   and the DECR inside MULTI is not conditional on the HDEL's reply. *)
+Theorem redis_double_gc_decr_refuted :
+  ∃ (h0 : list sop) (T : Z) (sched : list nat),
+    Forall sop_wf h0 ∧
+    let st0 := run_redis h0 in
+    let final := rrun sched (rshared_of st0, [rgc_thread T; rgc_thread T]) in
+    red_prom st0 = (1, 1, 0) ∧
+    finishedb final = true ∧
+    r_get (k_ihcount false) (rst final.1) = -1 ∧ red_registered (rst final.1) = 0 ∧
+    hs (rst final.1) = ∅ ∧
+    red_prom (red_gc T (red_gc T st0)) = (0, 0, 0).
+Proof.
+  exists [SClock 10; SPutSeeder conc_ex_ih false conc_ex_pk], 50.
+  exists [0; 0; 0; 0; 0; 0; 1; 1; 1; 1; 0; 1; 0; 1]%nat.
+  split; [repeat apply Forall_cons_2; try apply Forall_nil_2; by repeat split|].
+  by vm_compute.
 Qed.
